@@ -546,9 +546,33 @@ theorem C14_dropped_zone_below_mark (z : Zone) (hz : z.Truthful) (c h i : Nat)
   have := dropped_rows_below hz hd r hr
   rw [lexGt_false_iff]; simp only [Ev.pos]; omega
 
-/-- `flush`, `compact` and `backdate` of the model keep `timestamp_max` truthful. -/
-theorem C14_mkZone_tsMax (now : Nat) (rows : List Ev) : ∀ r ∈ rows, r.ts ≤ (mkZone now rows).tsMax :=
-  fun r hr => le_maxOf (mem_map.mpr ⟨r, hr, rfl⟩)
+/-- The zones a flush or a compaction round of the model writes carry truthful metadata. -/
+theorem C14_zonesOf_truthful (now c seg : Nat) (rows : List Ev) (h : ∀ r ∈ rows, r.ts ≤ now + 1) :
+    ∀ z ∈ zonesOf now c seg rows, z.Truthful :=
+  zonesOf_truthful h
+
+/-- **The segment-level early exit is implied by the per-zone pruner.**
+`MaterializationGuard::segment_fully_materialized` skips a segment only if *every* zone of it
+satisfies the drop rule, so it never skips a zone the pruner would have kept: the zones a delta
+query reads are exactly those the per-zone test keeps, in every store. (Together with
+`C14_zone_drop_sound_partial`: skipping segments is sound.) -/
+theorem C14_segment_guard_implied (guard : Option (Nat × Option Nat)) (all : List Zone) (z : Zone)
+    (hz : z ∈ all) : zoneRead guard all z = zoneKept guard z :=
+  zoneRead_eq guard hz
+
+/-- … and the quantifier matters: a segment's zones are in context order, not in time order, so
+its **last** zone does not bound the others. Segment 1 = [zone of context 0 holding the late row
+`(9, 60)`, zone of context 5 holding an old row of second 3]; mark second 6. The last zone
+satisfies the drop rule, the segment is not fully materialised, and a guard that looked at the last
+zone only would lose the row above the mark. -/
+theorem C14_segment_guard_last_zone_fails :
+    let zLate : Zone := { rows := [evT], tsMax := 9, createdAt := 7, mtime := 20, seg := 1 }
+    let zOld : Zone := { rows := [{ ts := 3, id := 5, shard := 0, key := 8, ctx := 5, x := 1 }],
+                         tsMax := 3, createdAt := 7, mtime := 20, seg := 1 }
+    ([zLate, zOld].getLast?.map (dropZone 1 (some 6))) = some true ∧
+    segFullyMaterialized 1 (some 6) [zLate, zOld] = false ∧
+    zoneRead (some (1, some 6)) [zLate, zOld] zLate = true ∧
+    lexGt evT.pos (6, 10) = true := by decide
 
 def zoneOld : Zone := { rows := [evT], tsMax := 9, createdAt := 3, mtime := 3 }
 def entryOld : Entry := Entry.initial qAll 1 [[{ ts := 6, id := 10, shard := 0, key := 9, ctx := 0, x := 1 }]]
@@ -584,7 +608,7 @@ theorem C14_zone_drop_created_at_partial (s : Store) (q : Spec) (c : Nat) (store
   · cases hk : zoneKept (some (c, none)) z with
     | true =>
       refine Or.inl (mem_filter.mpr ⟨mem_append_right _ ?_, hq⟩)
-      exact mem_flatMap.mpr ⟨z, mem_filter.mpr ⟨hz, hk⟩, hrz⟩
+      exact mem_flatMap.mpr ⟨z, mem_filter.mpr ⟨hz, (zoneRead_eq _ hz).trans hk⟩, hrz⟩
     | false =>
       simp only [zoneKept, fileStale, dropZone, Option.getD_none, Bool.and_eq_false_iff,
         Bool.not_eq_false', decide_eq_true_eq] at hk
